@@ -1073,6 +1073,76 @@ func (c *Ctx) flagCounts(addr ssa.Value, store ssa.Instruction) bool {
 				}
 			}
 		}
+		// the flag is handed back to the caller as a result: every caller must treat "true" as a failure
+		if !strong {
+			P := al.Parent()
+			for _, r := range referrers(al) {
+				ld, isLoad := r.(*ssa.UnOp)
+				if !isLoad || ld.Op.String() != "*" {
+					continue
+				}
+				for _, rr := range referrers(ld) {
+					ret, isRet := rr.(*ssa.Return)
+					if !isRet {
+						continue
+					}
+					ri := -1
+					for i, rv := range ret.Results {
+						if rv == ssa.Value(ld) {
+							ri = i
+						}
+					}
+					if ri < 0 {
+						continue
+					}
+					n, allStrong := 0, true
+					for _, e := range c.Graph().In[P] {
+						call, ok := e.Site.(*ssa.Call)
+						if !ok || staticFn(&call.Call) != P {
+							continue
+						}
+						n++
+						rv := resultValue(call, ri)
+						if rv == nil {
+							allStrong = false
+							continue
+						}
+						var lds []*ssa.UnOp
+						_ = lds
+						okSite := false
+						for _, br := range condBranches(rv) {
+							blk := br.iff.Block()
+							succ := 0
+							if br.neg {
+								succ = 1
+							}
+							target := blk.Succs[succ]
+							all, any := true, false
+							env := newEnvAt(blk)
+							env.enter(target, blk)
+							c.explore(target, 0, env, exploreCB{
+								ret: func(r2 *ssa.Return, e2 *pathEnv) {
+									any = true
+									if op := retErrOperand(r2); op == nil || e2.nilnessOf(op) != nonNil {
+										all = false
+									}
+								},
+								loud: func(in ssa.Instruction, e2 *pathEnv) { any = true },
+							})
+							if all && any {
+								okSite = true
+							}
+						}
+						if !okSite {
+							allStrong = false
+						}
+					}
+					if n > 0 && allStrong {
+						strong = true
+					}
+				}
+			}
+		}
 		c.flagStrong[al] = strong
 	}
 	if c.flagStrong[al] {
